@@ -563,6 +563,15 @@ func TestSurvey(t *testing.T) {
 			}
 			cnt[k]++
 		}
+		if os.Getenv("VERIF_SURVEY_PROBES") != "" {
+			for k := range res.Probes {
+				k = "probe " + k
+				if cnt[k] == 0 {
+					first[k] = idx
+				}
+				cnt[k]++
+			}
+		}
 		if res.Leftover {
 			cnt["~ bubble-leftover"]++
 			if first["~ bubble-leftover"] == 0 {
